@@ -172,6 +172,17 @@ structure GlobalCache (K V F : Type) where
   frequency_weight : Option F
   stats : StatsCell := ⟨0, 0⟩
 
+/-- `ThreadLocalCache`: the two `thread_local!` `RefCell`s of the calling thread and the configuration -/
+structure ThreadCache (K V F : Type) where
+  cache : Store K V
+  order : List K
+  limit : Option Nat
+  max_memory : Option Nat
+  policy : Policy
+  ttl : Option Nat
+  frequency_weight : Option F
+  stats : StatsCell := ⟨0, 0⟩
+
 /-- `AsyncGlobalCache`: the DashMap, the order queue behind its mutex, and the configuration -/
 structure AsyncCache (K V F : Type) where
   cache : Store K V
